@@ -418,13 +418,26 @@ def build_case(h, run):
                 if lu is not None:
                     post[lu] = t["id"]
             groups = [(op["scene"], op["dets"])] if op["kind"] == "predict" else op["scenes"]
-            for _, ds in groups:
+            rec_groups = {}
+            if is_visual(h) and st["res"]:
+                # visual kinds: the association is read from the RECORDS (existing id vs new), as the contract states it
+                if st["res"][0] == "records":
+                    rec_groups = {op.get("scene"): st["res"][1]}
+                elif st["res"][0] == "batch":
+                    rec_groups = dict(st["res"][1])
+            for sc, ds in groups:
                 if not ds:
                     continue
                 hl = []
-                for d in ds:
-                    tid = post.get(d["uid"])
-                    hl.append("None" if tid is None or pre.get(tid) is None else "Some %d" % pre[tid])
+                if is_visual(h):
+                    recs = rec_groups.get(sc) or []
+                    for j, d in enumerate(ds):
+                        tid = recs[j]["id"] if j < len(recs) else None
+                        hl.append("Some %d" % pre[tid] if tid in pre and pre[tid] is not None else "None")
+                else:
+                    for d in ds:
+                        tid = post.get(d["uid"])
+                        hl.append("None" if tid is None or pre.get(tid) is None else "Some %d" % pre[tid])
                 hints.append("(%d, [%s])" % (ds[0]["uid"], "; ".join(hl)))
         prev_main = st["main"]
     adds = "[]" if h["constraints"] is None else "[%s]" % "; ".join(
